@@ -31,7 +31,7 @@ TOL = 1e-12
 
 
 def gen_cases(tier, seed):
-    n = 300 if tier == "quick" else 5000
+    n = 300 if tier == "quick" else 30000
     return [{"seed": seed * 100043 + i} for i in range(n)]
 
 
